@@ -47,6 +47,11 @@ structure Fn where
   fd : Bool
   /-- an overload `void <name>(int p0)` is defined at the very end of the file -/
   lo : Bool
+  /-- helpers: the default values are written on the forward declaration only: `parse_function_body` takes the
+      parameters' `default_expr` from the definition alone, so the implementation has none -/
+  po : Bool := false
+  /-- entries: the function is a function template -/
+  tp : Bool := false
 
 structure Init where
   uses : List Nat
@@ -62,6 +67,8 @@ structure Pipe where
   gstate : Bool
   /-- the block is written before the entry point definitions it would otherwise follow -/
   before : Bool
+  /-- the first stage property spells its entry point `::<name>` (no plain identifier) -/
+  qual : Bool := false
 
 def splitList (s : String) (sep : String) : List String := if s.isEmpty then [] else s.splitOn sep
 
@@ -170,7 +177,7 @@ def parseHelper (s : String) : Option Fn :=
     let opts := optsOf parts 4
     pure { name, uses := ← useList? uses, calls := ← natList? calls, statics := ← natList? statics,
            stage := none, threads := none, dflt := ← optList? opts "d", inits := [], nt := 0,
-           fd := opts.contains "fd", lo := false }
+           fd := opts.contains "fd", lo := false, po := opts.contains "po" }
   | _ => none
 
 def parseEntry (s : String) : Option Fn :=
@@ -184,7 +191,7 @@ def parseEntry (s : String) : Option Fn :=
     pure { name, uses := ← useList? uses, calls := ← natList? calls, statics := ← natList? statics,
            stage := some (← parseStage stage), threads := ← parseThreads threads, dflt := [],
            inits := ← optList? (opts.filter (fun o => !o.startsWith "nt")) "i", nt, fd := opts.contains "fd",
-           lo := opts.contains "lo" }
+           lo := opts.contains "lo", tp := opts.contains "tp" }
   | _ => none
 
 def parsePipe (s : String) : Option Pipe :=
@@ -193,7 +200,7 @@ def parsePipe (s : String) : Option Pipe :=
   | [name, dflt, stages] => do
     let opts := optsOf parts 3
     pure { name, dflt := ← optNat? dflt, stages := ← natList? stages, gstate := opts.any (·.startsWith "gs"),
-           before := opts.contains "b" }
+           before := opts.contains "b", qual := opts.contains "q" }
   | _ => none
 
 def parseInit (s : String) : Option Init :=
@@ -400,7 +407,7 @@ def buildOne (msl : Bool) (p : Params) (pg : Prog) (pipe : Option PipeDef) : Str
     | .fn f =>
       match funcs[f]? with
       | none => []
-      | some fd => ((fd.uses ++ fd.dflt).filter mentionable).map (fun r => Sym.glob (off + r)) ++ fd.calls.map Sym.fn ++
+      | some fd => ((fd.uses ++ (if fd.po then [] else fd.dflt)).filter mentionable).map (fun r => Sym.glob (off + r)) ++ fd.calls.map Sym.fn ++
                    fd.statics.map (fun j => Sym.glob (2 + j)) ++ fd.inits.map (fun j => Sym.glob (off + nres + j))
   let keys := (List.range funcs.length).map Sym.fn ++ (List.range ds.length).map Sym.glob
   let stageRecs := match pipe with | some pp => pp.stages | none => []
@@ -481,16 +488,20 @@ def frontEnd (pg : Prog) : Except FrontErr (List PipeDef) :=
   if pg.rs.any (fun r => r.ss && r.hasIndex && !r.cb) then .error .StaticSamplerUnexpectedBindingIndex else
   -- nothing of the file is registered before it is read
   let fnOf : Fn → FnSrc := fun f =>
-    { name := f.name, attrs := attrsOf f, hasBody := false, isTemplate := false, registered := false }
+    { name := f.name, attrs := attrsOf f, hasBody := false, isTemplate := f.tp, registered := false }
   -- the user's functions, numbered like `funcs` in `buildOne`, then the intrinsic functions of the registry
   let fns : List FnSrc := (pg.helpers ++ pg.entries).map fnOf ++
     (lateOverloads pg.entries).map (fun n => { name := n, attrs := [], hasBody := false, isTemplate := false, registered := false }) ++
     intrinsicFunctionNames.map (fun n => { name := n, attrs := [], hasBody := false, isTemplate := false, registered := true })
   let srcs : List PipeSrc := pg.pipes.map fun pp =>
     { name := pp.name,
-      stages := pp.stages.filterMap (fun k => match pg.entries[k]? with
-        | some f => f.stage.map fun st => (st, f.name)
-        | none => none),
+      -- a qualified spelling is no plain identifier: `add_stage` refuses it where it would look the name up, which is
+      -- what a name no function has does
+      stages := (List.range pp.stages.length).filterMap (fun n => match pp.stages[n]? with
+        | none => none
+        | some k => match pg.entries[k]? with
+          | some f => f.stage.map fun st => (st, if pp.qual && n == 0 then "::" ++ f.name else f.name)
+          | none => none),
       dflt := pp.dflt, graphicsProps := pp.gstate }
   parseFile fns [] [] [] (itemsOf pg srcs)
 
